@@ -941,10 +941,10 @@ class C01(Check):
 
     def shrink(self, case, pred, budget=400):
         # on a tree where the cases hang, every shrinking step costs a watchdog timeout: all shrinking of one run
-        # together gets 1500 candidate runs and 40 watchdog timeouts (counted, not timed - the same run shrinks to the
+        # together gets 400 candidate runs and 30 watchdog timeouts (counted, not timed - the same run shrinks to the
         # same input on a loaded machine), after that the failing inputs are reported as they are
         def counted(c):
-            if self.shrink_calls >= 1500 or self.shr_timeouts >= 40:
+            if self.shrink_calls >= 400 or self.shr_timeouts >= 30:
                 return False
             self.shrink_calls += 1
             return pred(c)
